@@ -41,6 +41,8 @@ func main() {
 		runChainProfile(profileSpec{"aollist", genAolListHistory, func() []Monitor { return []Monitor{&aolCounterMonitor{}} }}, *seed, *n, *out, *replay, *blocks)
 	case "pnft":
 		runChainProfile(profileSpec{"pnft", genPnftHistory, func() []Monitor { return []Monitor{newPnftMonitor()} }}, *seed, *n, *out, *replay, *blocks)
+	case "valid":
+		runValid(*seed, *n, *out, *replay)
 	case "did":
 		runChainProfile(profileSpec{"did", genDidHistory, func() []Monitor { return []Monitor{newDidMonitor()} }}, *seed, *n, *out, *replay, *blocks)
 	case "compkey":
